@@ -57,6 +57,29 @@ def run(tier, corrupt=0):
         r["datetimes"] = [{"wall": w, "tz": z} for w in WALLS[:nwalls] for z in zones
                           if not (w == WALLS[3] and z != "UTC")]   # the fold instant is only given unambiguously (UTC)
         cases.append(r)
+    if tier == "thorough":
+        # more expressions and instants on every constructor combination that builds an evaluator: the table row says which Rust
+        # context is equivalent, whatever the (valid) expression
+        more_exprs = ["2099 Dec 31 22:00-26:00", "Mo-Fr 10:00-12:00 \"x\" ; PH off", "week 1-53/2 Sa 08:00-20:00", "easter -2 days-easter +1 day",
+                      "24/7 ; Dec 25-Jan 5 off \"holidays\"", "sunset-sunrise", "9999 Dec", "Jan-Mar Mo[1] 10:00-12:00 unknown",
+                      "Mo-Sa 08:00-20:00 ; SH off", "(sunrise+01:00)-(dusk-00:30) ; PH,Su closed", "2020-2030/3 Fr[-1] 22:00-28:00", "Sa,Su 10:00+"]
+        more_walls = ["1900-01-01T00:00:00", "1899-12-31T23:59:00", "9999-12-31T23:30:00", "2024-03-31T03:30:00", "2024-12-25T00:00:00",
+                      "2031-11-02T01:30:00"]
+        ok_rows = [r for r in cases if r["outcome"] == "ok" and r["expr_valid"]]
+        c.rng.shuffle(ok_rows)
+        nid = len(cases)
+        for j, r in enumerate(ok_rows[:400]):
+            nid += 1
+            clone = dict(r)
+            clone["id"] = nid
+            clone["expr"] = more_exprs[(j + c.seed) % len(more_exprs)]
+            zones = ["naive", "UTC", "America/New_York"] + ([r["tz"]] if r["tz"] != "none" else [])
+            year = 2024 + (j * 7 + c.seed) % 12
+            rnd = "%d-%02d-%02dT%02d:%02d:00" % (year, 1 + (j * 5) % 12, 1 + (j * 11) % 28, (j * 13) % 24, (j * 17) % 60)
+            clone["datetimes"] = [{"wall": w, "tz": z} for w in [more_walls[j % len(more_walls)], more_walls[(j + 3) % len(more_walls)], rnd]
+                                  for z in zones if not (w.startswith("2031-11-02") and z != "UTC")]
+            cases.append(clone)
+        c.setv("thorough_extra_cases", nid - len(rows))
     cpath = os.path.join(vlib.WORK, "c12_cases.ndjson")
     open(cpath, "w").write("\n".join(json.dumps(r) for r in cases) + "\n")
     pypath = os.path.join(vlib.WORK, "c12_py.ndjson")
